@@ -33,6 +33,45 @@ CLAIMS = {
  "C17": ("per-emission-site entitlement gates (three-valued over branch facts), option-code derivation from codec constructors, idempotence and provenance rules",
          "Each option emission of each option plugin is matched with its row of the frozen table: derived option code, entitlement gate true in every abstract state, entitled clients always served, at-most-once, value from the configured global, specified stop flag.",
          "Wire encoding and value equality beyond provenance are not decided.", "4 C17"),
+ "C02": ("path rules on the range handler anchored on Recordsv4/allocator/yiaddr: lookup-before-allocate, insert-before-reply, exhaustion, provenance, lease time; per-iteration restart rule; lock discipline",
+         "Shows on every abstract path that a new address is allocated and bound only after this client's key was looked up and found absent, that the reply carries the stored or just-allocated address and the configured lease time, that failure binds nothing, that restart re-marks and verifies every stored lease and keys the restored map like the handler, all in one exclusive critical section.",
+         "In-range and uniqueness of the numbers are the allocator clauses (C04/C05); sqlite durability is not decided.", "4 C02"),
+ "C03": ("writer/reader agreement tables extracted from SQL constants and SSA (columns, Go types, codec inverse pairs with domains, key form); must-pass rules for persistence and expiry provenance",
+         "Decides that every row the handler can write is accepted by the loader column by column (including the hardware-address codec's domain), that both sides key the map identically, that persistence precedes every reply and that the stored expiry is the promised one.",
+         "sqlite affinity/durability and timing are not decided.", "4 C03"),
+ "C04": ("typestate 'bit proved clear' per abstract state (phi-merged indices proved per incoming path), mutex-held dataflow, same-index provenance at returns, sibling agreement",
+         "For every implementation of allocators.Allocator: every bitmap operation under the exclusive mutex, every Set justified by Test==false / NextClear ok on the same index inside the same critical section, every success return converts exactly the bit set. This is the structural necessary condition for disjoint outstanding blocks under all histories and schedules.",
+         "Injectivity of index to address is arithmetic (C05/C20); bitset correctness trusted.", "4 C04"),
+ "C05": ("term extraction + exact branch-fact comparison for the linear IPv4 maps (13 weak orderings collapse to two comparisons), mask-length decision table, constructor size terms",
+         "Decides exactness of the inclusive range test, the identity toIP after toOffset, bitmap length = max index + 1, the mask-length rule, the capacity term and its guards, and that 'no address available' is reported exactly on exhaustion with no mutation.",
+         "IPv6 alignment/in-pool needs the 128-bit arithmetic (not decided).", "4 C05"),
+ "C06": ("dominating-fact rules on Free: containment/length before absolute-distance indexing, Test==true before Clear in one section, effect-free error exits; limb-arithmetic well-formedness",
+         "Every bitmap index used by Free derives from an address shown inside the pool and (IPv6) from a prefix at least one block long; Clear is justified by Test==true; success clears exactly one bit; every error exit leaves the bitmap untouched.",
+         "That the index is the containing block's is arithmetic.", "4 C06"),
+ "C07": ("three-valued hint-usable condition at the first-free search and at success returns; exact range test; caller rules (restart re-marking with comparison)",
+         "The first-free search is reached only where the hint is definitely unusable and a usable hint's own index is the bit set; the IPv4 range test is exact at both ends; the lease plugins pass stored addresses as hints and verify the answer.",
+         "Hint index arithmetic for IPv6 is not decided.", "4 C07"),
+ "C08": ("provenance/typestate rules on prefix.Handle per abstract state and per loop iteration; constants by value; allocator rules included",
+         "Every delegated prefix is the client's recorded lease or a fresh allocation, keyed by the inner client id; one response IA_PD per request IA_PD with its IAID; NoPrefixAvail when empty; preferred = valid = time to expiry with expiry = now + const ≤ 1h; known leases refreshed before being sent; all inside the critical section.",
+         "Pool membership/alignment of the allocator's answers and codec rounding are not decided.", "4 C08"),
+ "C09": ("accumulator shape check on SSA phi/append, reuse-before-allocate and marking rules per iteration, samePrefix exit comparison",
+         "The value recorded for a client accumulates all new leases on top of the known ones; new blocks only for hints no known lease satisfied (per-hint bitmap, same index); handing back a lease marks hint and lease; reuse only for equal or empty hints; samePrefix compares address and mask.",
+         "Recognition of the hint-less placeholder and equality of prefix values across messages are value properties, not decided.", "4 C09"),
+ "C10": ("who-writes/who-reads analysis of the served table, swap-on-success rule, per-iteration line grammar on both sibling loaders, lookup-key agreement, watcher loop shape",
+         "Decides the loaders' line grammar and all-or-nothing shape, the swap discipline, key agreement between loaders and handlers, exact handler outcomes for listed/unlisted clients, and that the watcher never stops. Reports the shared global table as a known finding.",
+         "stdlib address grammars and fsnotify delivery are not decided.", "4 C10"),
+ "C16": ("GUARDED-BY table with mutex-held dataflow (caller-context for helpers), cross-critical-section dependence (facts and values), global write reachability, buffer typestate, lock pairing/order",
+         "Every access to guarded state holds its mutex in the required mode on every abstract path; no guarded write depends on facts or values from another critical section; handler-read globals are never written concurrently; receive buffers are released once after parsing. Lock discipline implies race freedom of the guarded state and serialisability of each lease decision.",
+         "Codec aliasing of the receive buffer, races in dependencies and heap aliasing of shared option objects are not decided.", "4 C16"),
+ "C18": ("C01 safety rules on the config scope, constant propagation of the protocol version, per-version exit tables for getListenAddress, per-iteration rules for parseListen, shape rules for Load/getPlugins/parseConfig/parsePlugins",
+         "Decides that config loading cannot panic in first-party code, that listen addresses get the version's wildcard/default port/family check, that listen+interface is rejected on every path, that each configured address is appended exactly once, and the error/success shapes of plugin-list loading.",
+         "YAML/viper/cast behaviour and host:port grammar are trusted.", "4 C18"),
+ "C19": ("C01 safety rules over all setup functions, family-examined rule per parsed address, handler-or-error exit rule, abort rule, handler safety",
+         "Every setup either errors or returns a non-nil handler; no argument vector can panic first-party setup code; every parsed address has its family (and mask width for DHCPv4 networks) examined before being accepted; LoadPlugins aborts on errors; handlers are panic-free by C01's rules.",
+         "Round-trip equality through the codec is not decided.", "4 C19"),
+ "C20": ("overflow-discipline rules on SSA: math/bits carry consumption, shift guards with linear exponent arithmetic, split-shift alignment, raw limb operations need cited facts, zero results with ErrOverflow",
+         "Decides only the discipline: no unguarded wrapping operation, no unchecked slice, no non-zero result with an overflow error, limb shifts aligned. It does NOT decide numerical correctness or the inverse law.",
+         "Numerical correctness of the 128-bit results needs a big-integer reference (different technique family).", "4 C20"),
 }
 
 NOT_YET = "rule set designed in DESIGN.md section 4 but not implemented yet in this revision of the checker"
